@@ -37,50 +37,82 @@ def _elem_type_text(x, value):
     m = _re.match(r"^<elem>\(\[type\((\w+)\) for \1 in (.+)\]\)$", x)
     return bool(m) and value in m.group(2)
 
-def _plugin_fold(ctx, ds0):
-    """Second shape of the plugin accumulation: `config.resource = reduce(step, providers, Resource.create())` where
-    `step(acc, provider)` answers `acc.merge(<provider.resource()>)` or `acc` itself on every path."""
+def _fold_step_ok(ctx, step):
+    """step(acc, provider) answers `acc.merge(<provider.resource()>)` or `acc` itself on every path"""
     p, t = ctx.prog, ctx.types
+    ps = [a for a in step.params if a not in ("self", "cls")]
+    if len(ps) != 2:
+        return False
+    acc, item = ps
+    pm = [c for c in t.calls_in(step) if any(x.qname == RES + ".merge" for x in t.resolve_call(c, step).repo)]
+    if len(pm) != 1 or norm(pm[0].func.value) != acc or not pm[0].args:
+        return False
+    src = ctx.expand.expand(pm[0].args[0], step)[0]
+    if "resource()" not in src or item not in src:
+        return False
+    for x in t.nodes_in(step, (ast.Assign, ast.AugAssign)):
+        for tg in (x.targets if isinstance(x, ast.Assign) else [x.target]):
+            if isinstance(tg, ast.Name) and tg.id == item:
+                return False
+            if isinstance(tg, ast.Name) and tg.id == acc and not (isinstance(x, ast.Assign) and x.value is pm[0]):
+                return False
+    rets = [r for r in t.nodes_in(step, ast.Return)]
+    if not rets or not all(r.value is pm[0] or (isinstance(r.value, ast.Name) and r.value.id == acc) for r in rets):
+        return False
+    # the step ends in a return on every path (no fall-through answering None)
+    return isinstance(step.node.body[-1], ast.Return)
+
+
+def _plugin_fold(ctx, ds0):
+    """Other shapes of the plugin accumulation: `config.resource = reduce(step, providers, Resource.create())`, or
+    `for provider in providers: acc = step(acc, provider)` - where `step` is a function as in _fold_step_ok."""
+    p, t = ctx.prog, ctx.types
+
+    def step_of(e):
+        for ty in t.type_of(e, ds0):
+            if ty[0] in ("func", "bound") and ty[1] in p.functions:
+                return p.functions[ty[1]]
+        return None
     for n in t.nodes_in(ds0, ast.Assign):
         if not (isinstance(n.targets[0], ast.Attribute) and n.targets[0].attr == "resource"):
             continue
         v = n.value
         if isinstance(v, ast.Name):
+            accn = v.id
             bs = [b for k, b in t.local_bindings(ds0, v.id) if k == "assign"]
-            if len(bs) != 1:
+            if len(bs) == 1:
+                v = bs[0][1]
+            elif len(bs) == 2:
+                # loop form: acc = Resource.create(); for provider in providers: acc = step(acc, provider)
+                init = [b for b in bs if not paths.enclosing_loops(p, b[1], ds0)]
+                upd = [b for b in bs if paths.enclosing_loops(p, b[1], ds0)]
+                if len(init) != 1 or len(upd) != 1 or "Resource.create()" not in ctx.expand.expand(init[0][1], ds0)[0]:
+                    continue
+                c = upd[0][1]
+                lps = [l for l in paths.enclosing_loops(p, c, ds0) if isinstance(l, ast.For)]
+                if not (isinstance(c, ast.Call) and len(c.args) == 2 and lps and isinstance(lps[0].target, ast.Name)):
+                    continue
+                it_ = ctx.expand.expand(lps[0].iter, ds0)[0]
+                step = step_of(c.func)
+                if step is None and t.resolve_call(c, ds0).repo:
+                    step = t.resolve_call(c, ds0).repo[0]
+                if step is not None and norm(c.args[0]) == accn and norm(c.args[1]) == lps[0].target.id and not paths.conditions(p, c, ds0) and \
+                        ("resource_providers" in it_ or "ResourceProvider" in it_) and _fold_step_ok(ctx, step) and \
+                        not [x for x in ast.walk(lps[0]) if isinstance(x, (ast.Break, ast.Return))]:
+                    return True
                 continue
-            v = bs[0][1]
+            else:
+                continue
         if not (isinstance(v, ast.Call) and len(v.args) == 3 and not v.keywords and "functools.reduce" in t.resolve_call(v, ds0).ext):
             continue
-        step = None
-        for ty in t.type_of(v.args[0], ds0):
-            if ty[0] in ("func", "bound") and ty[1] in p.functions:
-                step = p.functions[ty[1]]
+        step = step_of(v.args[0])
         if step is None:
             continue
-        ps = [a for a in step.params if a not in ("self", "cls")]
-        if len(ps) != 2:
-            continue
-        acc, item = ps
         it_ = ctx.expand.expand(v.args[1], ds0)[0]
         if ("resource_providers" not in it_ and "ResourceProvider" not in it_) or "Resource.create()" not in ctx.expand.expand(v.args[2], ds0)[0]:
             continue
-        pm = [c for c in t.calls_in(step) if any(x.qname == RES + ".merge" for x in t.resolve_call(c, step).repo)]
-        if len(pm) != 1 or norm(pm[0].func.value) != acc or not pm[0].args:
-            continue
-        src = ctx.expand.expand(pm[0].args[0], step)[0]
-        if "resource()" not in src or item not in src:
-            continue
-        rebound = [x for x in t.nodes_in(step, (ast.Assign, ast.AugAssign)) for tg in (x.targets if isinstance(x, ast.Assign) else [x.target])
-                   if isinstance(tg, ast.Name) and tg.id in (acc, item)]
-        rets = [r for r in t.nodes_in(step, ast.Return)]
-        if rebound or not rets or not all(r.value is pm[0] or (isinstance(r.value, ast.Name) and r.value.id == acc) for r in rets):
-            continue
-        # the step ends in a return on every path (no fall-through answering None)
-        last = step.node.body[-1]
-        if not isinstance(last, ast.Return):
-            continue
-        return True
+        if _fold_step_ok(ctx, step):
+            return True
     return False
 
 def run(ctx: Ctx, tier: str) -> Result:
@@ -578,4 +610,5 @@ def run(ctx: Ctx, tier: str) -> Result:
     from .common import borrow
     borrow(ctx, res, tier, "c20", ("C20.LOAD",), "C18.CHAIN", "plugin-provided attributes override one another in the plugins' declared order: the list the providers "
            "are taken from is the loaded list sorted by order()")
+    borrow(ctx, res, tier, "c20", ("C20.ISO",), "C18.CHAIN", "a provider that fails costs its own attributes only: the providers after it are still asked and merged")
     return res
